@@ -507,4 +507,294 @@ theorem findStuff_encode (p : Params) (hp : p.Valid) (d : List UInt8) :
     findStuff (encode p d) = none :=
   (wf_noStuff hp (encode_wf hp d)).1
 
+/-! ### The decoder accepts exactly `DecodesFrom` -/
+
+section
+variable {p : Params} {fuel : Nat} {first pend : Bool}
+
+theorem decLoop_zero (inp : List UInt8) : decLoop p 0 first pend inp = none := by
+  simp [decLoop]
+
+theorem decLoop_nil : decLoop p (fuel + 1) first pend [] = if !first ∧ pend then some [] else none := by
+  simp [decLoop]
+
+theorem parseHdr_nil : parseHdr p first [] = none := by simp [parseHdr]
+
+theorem decLoop_parse_none {inp : List UInt8} (hne : inp ≠ []) (h : parseHdr p first inp = none) :
+    decLoop p (fuel + 1) first pend inp = none := by
+  cases inp with
+  | nil => exact absurd rfl hne
+  | cons a t => simp [decLoop, h]
+
+theorem decLoop_parse_some {inp rest : List UInt8} {n : Nat}
+    (h : parseHdr p first inp = some (n, rest)) :
+    decLoop p (fuel + 1) first pend inp =
+      if rest.length < n then none
+      else (decLoop p fuel false (decide (n < limit p first)) (rest.drop n)).map
+        (fun out => (if pend then [FE, FD] else []) ++ rest.take n ++ out) := by
+  cases inp with
+  | nil => simp [parseHdr] at h
+  | cons a t =>
+    by_cases hn : n < (if first = true then p.maxInit else p.maxSub)
+    · simp only [decLoop, h, limit, hn, decide_true]
+      split
+      · rfl
+      · generalize decLoop p fuel false true _ = r
+        cases r <;> rfl
+    · simp only [decLoop, h, limit, hn, decide_false]
+      split
+      · rfl
+      · generalize decLoop p fuel false false _ = r
+        cases r <;> rfl
+
+end
+
+/-- Completeness: a well-formed chunk sequence is decoded, to the data the format
+defines, by any fuel above the input length. -/
+theorem decLoop_of_decodes {p : Params} {first pend : Bool} {b out : List UInt8}
+    (h : DecodesFrom p first pend b out) :
+    ∀ fuel, b.length < fuel → decLoop p fuel first pend b = some out := by
+  induction h with
+  | done =>
+    intro fuel hf
+    obtain ⟨fuel, rfl⟩ : ∃ f, fuel = f + 1 := ⟨fuel - 1, by omega⟩
+    simp [decLoop_nil]
+  | @chunk first pend hdr body rest out hh _ ih =>
+    intro fuel hf
+    obtain ⟨fuel, rfl⟩ : ∃ f, fuel = f + 1 := ⟨fuel - 1, by omega⟩
+    have hp : parseHdr p first (hdr ++ body ++ rest) = some (body.length, body ++ rest) :=
+      parseHdr_eq_some_iff.2 ⟨hdr, hh, by simp⟩
+    have hl := hh.length
+    have hpos : 1 ≤ hdrLen first := by cases first <;> simp
+    rw [decLoop_parse_some hp, if_neg (by simp), List.drop_left' rfl, List.take_left' rfl,
+      ih fuel (by simp at hf; omega)]
+    rfl
+
+/-- Soundness: whatever the decoder returns is what the format defines. -/
+theorem decodes_of_decLoop {p : Params} {fuel : Nat} {first pend : Bool} {b out : List UInt8}
+    (h : decLoop p fuel first pend b = some out) : DecodesFrom p first pend b out := by
+  induction fuel generalizing first pend b out with
+  | zero => simp [decLoop_zero] at h
+  | succ fuel ih =>
+    by_cases hne : b = []
+    · subst hne
+      rw [decLoop_nil] at h
+      split at h
+      · rename_i hc
+        simp only [Option.some.injEq] at h
+        subst h
+        cases first <;> cases pend <;> simp at hc
+        exact .done
+      · simp at h
+    · cases hp : parseHdr p first b with
+      | none => rw [decLoop_parse_none hne hp] at h; simp at h
+      | some nr =>
+        obtain ⟨n, rest⟩ := nr
+        rw [decLoop_parse_some hp] at h
+        split at h
+        · simp at h
+        · rename_i hlen
+          cases hr : decLoop p fuel false (decide (n < limit p first)) (rest.drop n) with
+          | none => rw [hr] at h; simp at h
+          | some out' =>
+            rw [hr] at h
+            simp only [Option.map_some, Option.some.injEq] at h
+            subst h
+            obtain ⟨hdr, hh, rfl⟩ := parseHdr_eq_some_iff.1 hp
+            have hlen' : (rest.take n).length = n := by simp; omega
+            have e : hdr ++ rest = hdr ++ rest.take n ++ rest.drop n := by simp
+            rw [e]
+            exact .chunk (by rw [hlen']; exact hh) (by rw [hlen']; exact ih hr)
+
+/-- The fuel in `Spec.decode` is enough: any fuel above the input length gives the
+same answer. -/
+theorem decLoop_fuel {p : Params} {f₁ f₂ : Nat} {first pend : Bool} {b : List UInt8}
+    (h₁ : b.length < f₁) (h₂ : b.length < f₂) :
+    decLoop p f₁ first pend b = decLoop p f₂ first pend b := by
+  cases h : decLoop p f₁ first pend b with
+  | some out => exact (decLoop_of_decodes (decodes_of_decLoop h) f₂ h₂).symm
+  | none =>
+    cases h' : decLoop p f₂ first pend b with
+    | none => rfl
+    | some out => rw [decLoop_of_decodes (decodes_of_decLoop h') f₁ h₁] at h; simp at h
+
+/-- More fuel never changes an answer already given. -/
+theorem decLoop_fuel_mono {p : Params} {f₁ f₂ : Nat} {first pend : Bool} {b out : List UInt8}
+    (h : decLoop p f₁ first pend b = some out) (hle : f₁ ≤ f₂) :
+    decLoop p f₂ first pend b = some out := by
+  induction f₁ generalizing f₂ first pend b out with
+  | zero => simp [decLoop_zero] at h
+  | succ f₁ ih =>
+    obtain ⟨f₂, rfl⟩ : ∃ f, f₂ = f + 1 := ⟨f₂ - 1, by omega⟩
+    by_cases hne : b = []
+    · subst hne; rw [decLoop_nil] at h ⊢; exact h
+    · cases hp : parseHdr p first b with
+      | none => rw [decLoop_parse_none hne hp] at h; simp at h
+      | some nr =>
+        obtain ⟨n, rest⟩ := nr
+        rw [decLoop_parse_some hp] at h ⊢
+        split at h
+        · simp at h
+        · rename_i hlen
+          rw [if_neg hlen]
+          cases hr : decLoop p f₁ false (decide (n < limit p first)) (rest.drop n) with
+          | none => rw [hr] at h; simp at h
+          | some out' =>
+            rw [hr] at h
+            rw [ih hr (by omega)]; exact h
+
+/-- **The decoder accepts precisely the well-formed chunk sequences that end on a
+short chunk, and returns what the format defines** (for all parameters). -/
+theorem decode_iff {p : Params} {b d : List UInt8} : decode p b = some d ↔ Decodes p b d :=
+  ⟨decodes_of_decLoop, fun h => decLoop_of_decodes h _ (Nat.lt_succ_self _)⟩
+
+/-- `Decodes` is functional: the bytes determine the data. -/
+theorem decodes_unique {p : Params} {b d d' : List UInt8} (h : Decodes p b d) (h' : Decodes p b d') :
+    d = d' := by
+  have := decode_iff.2 h
+  rw [decode_iff.2 h'] at this
+  exact (Option.some.inj this).symm
+
+/-- Canonical encodings are decodable, to the same data. -/
+theorem wf_decodesFrom {p : Params} {first : Bool} {b d : List UInt8}
+    (h : WellFormedFrom p first b d) :
+    ∀ pend : Bool, DecodesFrom p first pend b ((if pend then [FE, FD] else []) ++ d) := by
+  induction h with
+  | @last first hdr body hh hl hs =>
+    intro pend
+    have := DecodesFrom.chunk (pend := pend) hh (rest := []) (out := [])
+      (by rw [decide_eq_true hl]; exact .done)
+    simpa using this
+  | @full first hdr body bytes data hh hl hs _ ih =>
+    intro pend
+    have := DecodesFrom.chunk (pend := pend) hh (rest := bytes) (out := data)
+      (by rw [decide_eq_false (by omega)]; simpa using ih false)
+    simpa using this
+  | @stuff first hdr body bytes data hh hl hs _ ih =>
+    intro pend
+    have := DecodesFrom.chunk (pend := pend) hh (rest := bytes) (out := FE :: FD :: data)
+      (by rw [decide_eq_true (by omega)]; simpa using ih true)
+    simpa using this
+
+theorem wf_decodes {p : Params} {b d : List UInt8} (h : WellFormed p b d) : Decodes p b d := by
+  simpa [Decodes] using wf_decodesFrom h false
+
+/-- **Round trip** on the batch definitions. -/
+theorem decode_encode (p : Params) (hp : p.Valid) (d : List UInt8) :
+    decode p (encode p d) = some d :=
+  decode_iff.2 (wf_decodes (encode_wf hp d))
+
+/-! ### Length of the encoding -/
+
+/-- Number of *full* chunks (`limit` bytes, no stuff sequence in the window) the
+encoder cuts; same recursion as `encLoop`. -/
+def fullCount (p : Params) : Nat → Bool → List UInt8 → Nat
+  | 0, _, _ => 0
+  | fuel + 1, first, d =>
+    match findStuff (d.take (limit p first)) with
+    | some i => fullCount p fuel false (d.drop (i + 2))
+    | none =>
+      if limit p first ≤ d.length then fullCount p fuel false (d.drop (limit p first)) + 1 else 0
+
+/-- Number of full chunks in the canonical encoding of `d`. -/
+def fullChunks (p : Params) (d : List UInt8) : Nat := fullCount p (d.length + 1) true d
+
+section
+variable {p : Params} {fuel : Nat} {first : Bool} {d : List UInt8}
+
+theorem fullCount_stuff {i : Nat} (h : findStuff (d.take (limit p first)) = some i) :
+    fullCount p (fuel + 1) first d = fullCount p fuel false (d.drop (i + 2)) := by
+  simp [fullCount, h]
+
+theorem fullCount_full (h : findStuff (d.take (limit p first)) = none)
+    (hl : limit p first ≤ d.length) :
+    fullCount p (fuel + 1) first d = fullCount p fuel false (d.drop (limit p first)) + 1 := by
+  simp [fullCount, h, hl]
+
+theorem fullCount_last (h : findStuff (d.take (limit p first)) = none)
+    (hl : d.length < limit p first) : fullCount p (fuel + 1) first d = 0 := by
+  simp [fullCount, h, Nat.not_le.2 hl]
+
+end
+
+theorem encLoop_length {p : Params} (hp : p.Valid) {fuel : Nat} {first : Bool} {d : List UInt8}
+    (hf : d.length < fuel) :
+    (encLoop p fuel first d).length = d.length + hdrLen first + 2 * fullCount p fuel first d := by
+  induction fuel generalizing first d with
+  | zero => omega
+  | succ fuel ih =>
+    have hpos := limit_pos hp first
+    rcases window_cases p first d with ⟨body, post, rfl, hb, hs, hw⟩ | ⟨hw, hl⟩ | ⟨hw, hl⟩
+    · have e2 : (body ++ FE :: FD :: post).drop (body.length + 2) = post := by
+        rw [show body ++ FE :: FD :: post = (body ++ [FE, FD]) ++ post by simp]
+        exact List.drop_left' (by simp)
+      rw [encLoop_stuff hw, fullCount_stuff hw, e2]
+      simp only [List.length_append, header_length, List.length_take, List.length_cons]
+      rw [ih (by simp at hf; omega)]
+      simp; omega
+    · rw [encLoop_full hw hl, fullCount_full hw hl]
+      simp only [List.length_append, header_length, List.length_take]
+      rw [ih (by simp; omega)]
+      simp; omega
+    · rw [encLoop_last hw hl, fullCount_last hw hl]
+      simp only [List.length_append, header_length]; omega
+
+/-- After the first chunk, every full chunk carries `maxSub` payload bytes. -/
+theorem fullCount_false_le {p : Params} (hp : p.Valid) {fuel : Nat} {d : List UInt8}
+    (hf : d.length < fuel) : fullCount p fuel false d * p.maxSub ≤ d.length := by
+  induction fuel generalizing d with
+  | zero => omega
+  | succ fuel ih =>
+    have hpos := limit_pos hp false
+    rcases window_cases p false d with ⟨body, post, rfl, hb, hs, hw⟩ | ⟨hw, hl⟩ | ⟨hw, hl⟩
+    · have e2 : (body ++ FE :: FD :: post).drop (body.length + 2) = post := by
+        rw [show body ++ FE :: FD :: post = (body ++ [FE, FD]) ++ post by simp]
+        exact List.drop_left' (by simp)
+      rw [fullCount_stuff hw, e2]
+      have := ih (d := post) (by simp at hf; omega)
+      simp; omega
+    · rw [fullCount_full hw hl]
+      have := ih (d := d.drop (limit p false)) (by simp only [List.length_drop]; omega)
+      simp only [limit_false, List.length_drop] at this hl hpos ⊢
+      rw [Nat.add_mul]; omega
+    · rw [fullCount_last hw hl]; simp
+
+theorem fullCount_true_le {p : Params} (hp : p.Valid) {fuel : Nat} {d : List UInt8}
+    (hf : d.length < fuel) :
+    fullCount p fuel true d * p.maxSub ≤ d.length + p.maxSub - 1 := by
+  obtain ⟨fuel, rfl⟩ : ∃ f, fuel = f + 1 := ⟨fuel - 1, by omega⟩
+  have hpos := limit_pos hp true
+  have hpos' := limit_pos hp false
+  rcases window_cases p true d with ⟨body, post, rfl, hb, hs, hw⟩ | ⟨hw, hl⟩ | ⟨hw, hl⟩
+  · have e2 : (body ++ FE :: FD :: post).drop (body.length + 2) = post := by
+      rw [show body ++ FE :: FD :: post = (body ++ [FE, FD]) ++ post by simp]
+      exact List.drop_left' (by simp)
+    rw [fullCount_stuff hw, e2]
+    have := fullCount_false_le hp (fuel := fuel) (d := post) (by simp at hf; omega)
+    simp; omega
+  · rw [fullCount_full hw hl]
+    have := fullCount_false_le hp (fuel := fuel) (d := d.drop (limit p true)) (by simp only [List.length_drop]; omega)
+    simp only [limit_true, limit_false, List.length_drop] at this hl hpos hpos' ⊢
+    rw [Nat.add_mul]; omega
+  · rw [fullCount_last hw hl]; simp
+
+/-- **Exact length**: one byte of first header, plus two per full chunk (a chunk
+ended by a stuff sequence trades the two dropped bytes for the next header). -/
+theorem encode_length_eq (p : Params) (hp : p.Valid) (d : List UInt8) :
+    (encode p d).length = d.length + 1 + 2 * fullChunks p d := by
+  simpa [encode, fullChunks] using encLoop_length hp (first := true) (Nat.lt_succ_self d.length)
+
+theorem fullChunks_le (p : Params) (hp : p.Valid) (d : List UInt8) :
+    fullChunks p d ≤ (d.length + p.maxSub - 1) / p.maxSub := by
+  have hpos := limit_pos hp false
+  rw [Nat.le_div_iff_mul_le (by simp only [limit_false] at hpos; omega)]
+  exact fullCount_true_le hp (Nat.lt_succ_self _)
+
+/-- **Length bound**. -/
+theorem encode_length_le (p : Params) (hp : p.Valid) (d : List UInt8) :
+    (encode p d).length ≤ d.length + 1 + 2 * ((d.length + p.maxSub - 1) / p.maxSub) := by
+  rw [encode_length_eq p hp]
+  have := fullChunks_le p hp d
+  omega
+
 end Woodpile.Hcobs.Spec
